@@ -56,19 +56,20 @@ template<class A> void fill(A& a, int salt) { using T = typename A::element_type
 static std::string ext_str(std::vector<idx> const& e) { std::string s = "{"; for(std::size_t i = 0; i < e.size(); ++i) { s += (i ? "," : ""); s += std::to_string(e[i]); } return s + "}"; }
 
 // prior states of the loading array
-enum Prior { P_DEFAULT, P_SAME, P_OTHER_COUNT, P_PERMUTED, P_CLEARED, P_MOVED_FROM, P_BIGGER, NPRIOR };
-static char const* const prior_name[] = {"default-constructed", "same extents (other values)", "different extents, different count", "permuted extents (same count)", "cleared", "moved-from", "larger in every dimension"};
+enum Prior { P_DEFAULT, P_SAME, P_OTHER_COUNT, P_PERMUTED, P_CLEARED, P_MOVED_FROM, P_BIGGER, P_SAME_SIZES_OTHER_BASES, NPRIOR };
+static char const* const prior_name[] = {"default-constructed", "same extents (other values)", "different extents, different count", "permuted extents (same count)", "cleared", "moved-from", "larger in every dimension", "same sizes, different index bases"};
 
 template<class T, int D>
 void arrays_grid(std::vector<std::vector<idx>> const& shapes, std::string const& only) {
 	using Arr = multi::array<T, D>;
 	for(auto const& sh : shapes) {
 		for(int kind = 0; kind < 3; ++kind) {
-			for(int pr = 0; pr < NPRIOR; ++pr) {
-				std::string rp = std::string(tname<T>()) + "/" + std::to_string(D) + "/" + ext_str(sh) + "/" + kinds[kind] + "/" + std::to_string(pr);
+			for(int pr = 0; pr < NPRIOR; ++pr) { for(int sb = 0; sb < (D >= 1 ? 2 : 1); ++sb) {   // sb: the saved array is zero-based / carries index bases 1,2,3,..
+				std::string rp = std::string(tname<T>()) + "/" + std::to_string(D) + "/" + ext_str(sh) + "/" + kinds[kind] + "/" + std::to_string(pr) + (sb ? "/rebased" : "");
+				std::vector<idx> fa(sh.size(), 0), fb(sh.size(), -1); if(sb) { for(std::size_t q = 0; q < fa.size(); ++q) { fa[q] = static_cast<idx>(q + 1); } }
 				if(!only.empty() && only != rp) { continue; }
 				mc::cur_set(std::string("array<") + tname<T>() + "," + std::to_string(D) + ">|" + kinds[kind] + "|prior:" + prior_name[pr], rp);
-				Arr a(vo::make_extensions<D>(sh)); fill(a, 1);
+				Arr a(vo::make_extensions<D>(fa, sh)); fill(a, 1);
 				std::unique_ptr<Arr> b;
 				std::vector<idx> other(sh), perm(sh), big(sh);
 				for(auto& x : other) { x += 1; } for(auto& x : big) { x += 2; }
@@ -81,6 +82,7 @@ void arrays_grid(std::vector<std::vector<idx>> const& shapes, std::string const&
 					case P_CLEARED: b = std::make_unique<Arr>(vo::make_extensions<D>(other)); fill(*b, 2); b->clear(); break;
 					case P_MOVED_FROM: { b = std::make_unique<Arr>(vo::make_extensions<D>(other)); fill(*b, 2); Arr sink(std::move(*b)); (void)sink; break; }
 					case P_BIGGER: b = std::make_unique<Arr>(vo::make_extensions<D>(big)); fill(*b, 2); break;
+					case P_SAME_SIZES_OTHER_BASES: if(D < 1) { continue; } b = std::make_unique<Arr>(vo::make_extensions<D>(fb, sh)); fill(*b, 2); break;
 					default: continue;
 				}
 				++g_runs; if(a.num_elements() >= 2) { ++g_nontrivial; }
@@ -93,10 +95,10 @@ void arrays_grid(std::vector<std::vector<idx>> const& shapes, std::string const&
 				if(why.empty() && !(*b == a)) { why = "operator=="; }
 				if(!why.empty()) {
 					mc::R.violation(std::string("array<") + tname<T>() + "," + std::to_string(D) + ">|" + kinds[kind] + "|prior:" + prior_name[pr] + "|" + why,
-						mc::J().s("harness", "sermc").s("replay", rp).s("element_type", tname<T>()).n("D", D).s("extents", ext_str(sh)).s("archive", kinds[kind]).s("prior_state", prior_name[pr]).s("oracle", why).str());
+						mc::J().s("harness", "sermc").s("replay", rp).s("element_type", tname<T>()).n("D", D).s("extents", ext_str(sh)).s("archive", kinds[kind]).s("prior_state", prior_name[pr]).s("saved_index_bases", sb ? "1,2,3,.." : "0").s("oracle", why).str());
 				}
 				if(mc::R.samples.size() < 3 && pr == P_PERMUTED && a.num_elements() >= 4) { mc::R.sample(mc::J().s("case", rp).s("prior_state", prior_name[pr]).n("archive_bytes", static_cast<long long>(ar.size())).str()); }
-			}
+			} }
 		}
 	}
 }
